@@ -34,6 +34,9 @@ MODULE_SRC = "(provide spin spin2)\n(define (spin n) (if (< n 0) n (spin (+ n 1)
 
 # name -> (program, tags).  tags: rounds = the loop performs stop/resume rounds on its own controller (K17a class),
 # modloop = self-tail loop of a module-level function (K17b class when the JIT is on)
+# nativeloop = a shape whose loop the JIT turns into code that never returns to the dispatch loop once it is compiled (the lifted
+#   loop procedure of a top-level `while`; a natively compiled callback driven by the native #%for-each): K17b by cause, attributed
+#   only if the very same case is interrupted at once with STEEL_JIT=false
 SHAPES = {
     "self-tail": ("(define (loop) (loop)) (c17-mark!) (loop)", set()),
     "self-tail-arg": ("(define (loop n) (if (< n 0) n (loop (+ n 1)))) (c17-mark!) (loop 0)", set()),
@@ -68,7 +71,7 @@ SHAPES = {
     "closure-chain": ("(define (mk k) (lambda (n) (if (< n 0) k ((mk (+ k 1)) (+ n 1))))) (c17-mark!) ((mk 0) 0)", set()),
     # loops that run stop-the-world rounds on their own controller
     "set-global": ("(define g 0) (define (loop) (set! g (+ g 1)) (loop)) (c17-mark!) (loop)", {"rounds"}),
-    "while-set-global": ("(define i 0) (c17-mark!) (while #t (set! i (+ i 1)))", {"rounds"}),
+    "while-set-global": ("(define i 0) (c17-mark!) (while #t (set! i (+ i 1)))", {"rounds", "nativeloop"}),
     "define-global-eval": ("(define (loop n) (eval `(define h ,n)) (loop (+ n 1))) (c17-mark!) (loop 0)", {"rounds"}),
     "callcc-global-generator": ("(define k #f) (define n 0) (c17-mark!) (begin (call/cc (lambda (c) (set! k c))) (set! n (+ n 1)) (k 0))", {"rounds"}),
     "alloc-live-boxes": ("(define keep (make-vector 30000 0)) (define (loop n) (vector-set! keep (modulo n 30000) (box n)) (loop (+ n 1))) (c17-mark!) (loop 0)", {"rounds"}),
@@ -101,7 +104,7 @@ SHAPES = {
     "long-hash-filter": ("(define h (transduce (range 0 150000) (mapping (lambda (x) (cons x x))) (into-hashmap))) ;;;UNIT;;; (c17-mark!) (transduce h (filtering (lambda (p) #f)) (into-count))", {"hof", "long"}),
     "long-vector-filter": ("(define v (list->vector (range 0 600000))) ;;;UNIT;;; (c17-mark!) (transduce v (filtering (lambda (x) #f)) (into-vector))", {"hof", "long"}),
     "long-sort-comparator": ("(define big (reverse (range 0 300000))) ;;;UNIT;;; (c17-mark!) (length (sort big (lambda (a b) (< a b))))", {"hof", "long"}),
-    "long-for-each-range": ("(define big (range 0 3000000)) ;;;UNIT;;; (c17-mark!) (for-each (lambda (x) x) big)", {"hof", "long"}),
+    "long-for-each-range": ("(define big (range 0 3000000)) ;;;UNIT;;; (c17-mark!) (for-each (lambda (x) x) big)", {"hof", "long", "nativeloop"}),
     # the only Steel code of the pipeline is the tail thunk of the stream (K17d, fixed by /repo 3cbe5bf4: regression shapes)
     "stream-tail-prim-filter": ("(define ones (stream-cons 1 (lambda () ones))) ;;;UNIT;;; (c17-mark!) (transduce ones (filtering even?) (taking 1) (into-list))", {"hof", "streamtail"}),
     "stream-tail-taking-count": ("(define ones (stream-cons 1 (lambda () ones))) ;;;UNIT;;; (c17-mark!) (transduce ones (taking 2000000000) (into-count))", {"hof", "streamtail"}),
@@ -204,16 +207,17 @@ def classify(ctx, name, tags, jit, kv, known, stats, replay_line):
                           % (known["K17a"]["replay"], name, jit, oc, kv.get("requests")))
         return
     native_only = False
-    if oc == "hang" and jit == "true" and "K17b" in known and "modloop" not in tags:
+    if lost and jit == "true" and "K17b" in known and "nativeloop" in tags:
         # K17b by cause: native code contains no poll (table GenPolls, obligation native_back_edges_have_no_poll), so a loop
         # that the JIT has compiled to a native back-edge - a module-level self tail call, but also the lifted loop procedure of
         # a top-level `while` / named let once it has run often enough to be compiled - is not interrupted although the
-        # controller holds the request.  Class predicate: the very same case line is interrupted at once with STEEL_JIT=false
+        # controller holds the request; a natively compiled callback of a native iteration construct (for-each over a long
+        # list) likewise runs to the end of the construct before anything polls (`lost-then-interrupted`).  Class predicate: the very same case line is interrupted at once with STEEL_JIT=false
         # (the request itself is delivered; only native code does not look).
         again = run_cases([replay_line], "false", 60)
         kv2 = next(iter(again.values()), {}) if again else {}
         native_only = kv2.get("outcome") == "interrupted" and kv2.get("probe") == "ok"
-    if oc == "hang" and ("modloop" in tags or native_only) and jit == "true" and "K17b" in known:
+    if ((oc == "hang" and "modloop" in tags) or native_only) and jit == "true" and "K17b" in known:
         stats["k17b"] += 1
         kf(ctx, "K17b", "id=K17b class=jit_native_self_tail_loop replay=%s (shape %s: no request of %s got through)"
                           % (known["K17b"]["replay"], name, kv.get("requests")))
